@@ -67,6 +67,7 @@ fn finish(property: &str, tier: Tier, replay: Option<String>, instances: Vec<Ins
         return e2::replay_file(&path, &instances, &*j);
     }
     let started = std::time::Instant::now();
+    e2::start_hang_watchdog(property, tier, 60);
     let e = e2::explore(property, instances.clone(), j);
     e2::finish_e2(property, tier, e, &instances, rule, assumptions, started, vec![])
 }
